@@ -322,7 +322,9 @@ func (dec *Decoder) LastReferenceIndex() int {
 
 // ReadReference to p.
 func (dec *Decoder) ReadReference(p interface{}) {
-	dec.convertReference(dec.refer.Read(dec.ReadInt()), p)
+	if o := dec.readReferred(); o != nil || dec.Error == nil {
+		dec.convertReference(o, p)
+	}
 }
 
 // convertReference stores the referred object o into p through the converter for their types.
@@ -392,6 +394,47 @@ func (dec *Decoder) Skip() {
 	dec.head++
 }
 
+// maxPrealloc bounds what is allocated in advance on the word of a length that
+// cannot be checked against the input (a reader-backed decoder).
+const maxPrealloc = 1 << 16
+
+// prealloc is the part of a declared count that is allocated in advance.
+func prealloc(count int) int {
+	if count > maxPrealloc {
+		return maxPrealloc
+	}
+	return count
+}
+
+// readCount reads a length or an element count. It is never negative and, as
+// every item takes at least one byte, it cannot exceed what is left of an input
+// that is completely in memory; anything else is a malformed stream: the error
+// is set and 0 is returned, so that nothing is allocated or looped over on the
+// word of untrusted bytes.
+func (dec *Decoder) readCount() int {
+	count := dec.ReadInt()
+	if count < 0 || (dec.reader == nil && count > dec.tail-dec.head) {
+		if dec.Error == nil {
+			dec.Error = ErrInvalidLength
+		}
+		return 0
+	}
+	return count
+}
+
+// readReferred returns the object a reference index points at, or nil and an
+// error when nothing has been decoded under that index.
+func (dec *Decoder) readReferred() interface{} {
+	index := dec.ReadInt()
+	if index < 0 || index >= len(dec.refer.ref) {
+		if dec.Error == nil {
+			dec.Error = ErrInvalidLength
+		}
+		return nil
+	}
+	return dec.refer.Read(index)
+}
+
 // own decides whether data, a slice of the read buffer, may be handed out as it
 // is. When it ends exactly at the end of the buffered bytes of a reader-backed
 // decoder, the very next read refills the buffer in place and would overwrite
@@ -414,7 +457,12 @@ func (dec *Decoder) next(n int) (data []byte, safe bool) {
 		return dec.own(data)
 	}
 	safe = true
-	data = make([]byte, remain, n)
+	capacity := n
+	if capacity > remain+maxPrealloc {
+		// the declared length is not trusted with a large allocation
+		capacity = remain + maxPrealloc
+	}
+	data = make([]byte, remain, capacity)
 	copy(data, dec.buf[dec.head:dec.tail])
 	n -= remain
 	for {
